@@ -3,16 +3,19 @@
    Styles, and for each schema the instance choices (which optional properties are present, value index 1..2).
    Pairs use the reduced type list PairTypes.  One SCEN line per (schema, instance choice). *)
 EXTENDS Naturals, Sequences, FiniteSets, TLC, Json
-CONSTANTS Types, PairTypes, Styles, PairStyles, MaxProps
+CONSTANTS Types, PairTypes, Styles, PairStyles, MaxProps,
+          TripleStyles   \* styles whose three keys collide with each other or with a DERIVED (suffixed / escaped) name
 VARIABLES sc, done
 
 Prop(ty, req, st) == [ty |-> ty, req |-> req, style |-> st]
 Singles == {<<Prop(t, r, s)>> : t \in Types, r \in BOOLEAN, s \in Styles}
 Pairs == IF MaxProps < 2 THEN {} ELSE
   {<<Prop(t1, r1, s[1]), Prop(t2, r2, s[2])>> : t1 \in PairTypes, t2 \in PairTypes, r1 \in BOOLEAN, r2 \in BOOLEAN, s \in PairStyles}
-Schemas == Singles \cup Pairs
+\* three string properties of one style (keys 1..3 of the style), two required-patterns
+Triples == {<<Prop("str", r, st), Prop("str", FALSE, st), Prop("str", FALSE, st)>> : r \in BOOLEAN, st \in TripleStyles}
+Schemas == Singles \cup Pairs \cup Triples
 Optional(ps) == {i \in 1..Len(ps) : ~ps[i].req}
-Scen == {[props |-> ps, present |-> pr, vi |-> vi] : ps \in Schemas, pr \in SUBSET (1..2), vi \in 1..2}
+Scen == {[props |-> ps, present |-> pr, vi |-> vi] : ps \in Schemas, pr \in SUBSET (1..3), vi \in 1..2}
 
 Init == sc \in {s \in Scen : s.present \subseteq Optional(s.props)} /\ done = FALSE
 Emit == ~done /\ done' = TRUE /\ UNCHANGED sc /\ PrintT("SCEN " \o ToJson(sc))
